@@ -103,6 +103,9 @@ func BuildOLVM(chainID string, from *Account, to *keys.Address, nonce uint64, va
 	copy(sig[64-len(sb):64], sb)
 	vv := new(big.Int).Sub(v, new(big.Int).Add(new(big.Int).Mul(txCid, big.NewInt(2)), big.NewInt(35)))
 	sig[64] = byte(vv.Uint64())
+	if data == nil {
+		data = []byte{} // an honest client's payload carries empty call data as "" (what the web3 conversion produces)
+	}
 	msg := olvm.Transaction{
 		Nonce: nonce, From: from.Addr, To: to, Amount: OLT(value), Data: data, ChainID: txCid,
 	}
